@@ -1961,3 +1961,92 @@ def generate_tab(src_dir):
             "import Serif.Prelude\n\nset_option linter.unusedVariables false\n\nnamespace Serif.Gen.TT\nopen Serif\n\n"
             + "\n\n".join(parts) + "\n\nend Serif.Gen.TT\n")
     return text, errors
+
+
+# ---------------------------------------------------------------------------------------------
+# sort_by: the None flag of the sort keys (Table.sort_by's key_fn, Vector.sort_by's two lambdas)
+# ---------------------------------------------------------------------------------------------
+def translate_sort_flags(vsrc, tsrc):
+    def bx(node, env):
+        """boolean expression over the names in env (python name -> lean name)"""
+        if isinstance(node, ast.Name) and node.id in env:
+            return env[node.id]
+        if isinstance(node, ast.Constant) and isinstance(node.value, bool):
+            return "true" if node.value else "false"
+        if isinstance(node, ast.UnaryOp) and isinstance(node.op, ast.Not):
+            return f"(!{bx(node.operand, env)})"
+        if isinstance(node, ast.BoolOp):
+            return "(" + (" && " if isinstance(node.op, ast.And) else " || ").join(bx(v, env) for v in node.values) + ")"
+        if isinstance(node, ast.IfExp):
+            return f"(if {bx(node.test, env)} then {bx(node.body, env)} else {bx(node.orelse, env)})"
+        if isinstance(node, ast.Compare) and len(node.ops) == 1:
+            l, r = node.left, node.comparators[0]
+            if isinstance(r, ast.Constant) and r.value is None and isinstance(l, ast.Name) and env.get("@elem") == l.id:
+                return "isNone" if isinstance(node.ops[0], ast.Is) else "(!isNone)"
+            if isinstance(node.ops[0], (ast.NotEq, ast.Eq)):
+                a, b = bx(l, env), bx(r, env)
+                return f"({a} != {b})" if isinstance(node.ops[0], ast.NotEq) else f"({a} == {b})"
+        raise TranslateError("sort flag: " + ast.unparse(node)[:50])
+
+    out = []
+    # Table.sort_by: the nested key_fn
+    tf = find_func(ast.parse(tsrc), "sort_by", "Table")
+    loops = [s for s in ast.walk(tf) if isinstance(s, ast.For) and ast.unparse(s.iter) == "reversed(list(zip(resolved, rev_flags)))"]
+    if len(loops) != 1 or ast.unparse(loops[0].target) != "(col, rev)":
+        raise TranslateError("Table.sort_by: key loop (keys applied from last to first)")
+    if ast.unparse(loops[0].body[-1]) != "indices.sort(key=key_fn, reverse=rev)":
+        raise TranslateError("Table.sort_by: sort call")
+    kf = [s for s in loops[0].body if isinstance(s, ast.FunctionDef) and s.name == "key_fn"]
+    if len(kf) != 1:
+        raise TranslateError("Table.sort_by: key_fn")
+    body = [s for s in kf[0].body if not (isinstance(s, ast.Expr) and isinstance(s.value, ast.Constant))]
+    if [ast.unparse(s) for s in body[:2]] != ["v = data[i]", "is_none = v is None"] or ast.unparse(body[-1]) != "return (flag, v)":
+        raise TranslateError("Table.sort_by: key_fn frame")
+    env = {"na_last": "naLast", "rev": "rev", "is_none": "isNone"}
+
+    def flag_of(stmts):
+        if len(stmts) == 1 and isinstance(stmts[0], ast.Assign) and ast.unparse(stmts[0].targets[0]) == "flag":
+            return bx(stmts[0].value, env)
+        if len(stmts) == 1 and isinstance(stmts[0], ast.If):
+            return f"(if {bx(stmts[0].test, env)} then {flag_of(stmts[0].body)} else {flag_of(stmts[0].orelse)})"
+        raise TranslateError("Table.sort_by: flag assignment")
+
+    out.append("/-- translated from `key_fn` inside `Table.sort_by`: the first component of the key tuple `(flag, v)` -/\n"
+               f"def tableSortFlagT (isNone rev naLast : Bool) : Bool :=\n  {flag_of(body[2:-1])}")
+    # Vector.sort_by: two lambdas chosen by a test
+    vf = find_func(ast.parse(vsrc), "sort_by", "Vector")
+    sel = [s for s in vf.body if isinstance(s, ast.If) and any(isinstance(n, ast.Lambda) for n in ast.walk(s))]
+    if len(sel) != 1 or len(sel[0].body) != 1 or len(sel[0].orelse) != 1:
+        raise TranslateError("Vector.sort_by: key selection")
+    if not any(ast.unparse(s) == "new_values = tuple(sorted(self._underlying, key=key_fn, reverse=reverse))" for s in vf.body):
+        raise TranslateError("Vector.sort_by: sorted call")
+
+    def lam(stmt):
+        if not (isinstance(stmt, ast.Assign) and ast.unparse(stmt.targets[0]) == "key_fn" and isinstance(stmt.value, ast.Lambda)
+                and isinstance(stmt.value.body, ast.Tuple) and len(stmt.value.body.elts) == 2):
+            raise TranslateError("Vector.sort_by: lambda")
+        x = stmt.value.args.args[0].arg
+        if ast.unparse(stmt.value.body.elts[1]) != f"{x} if {x} is not None else 0":
+            raise TranslateError("Vector.sort_by: value component")
+        return bx(stmt.value.body.elts[0], {"@elem": x})
+
+    venv = {"na_last": "naLast", "reverse": "rev"}
+    out.append("/-- translated from `Vector.sort_by`: the first component of the key its chosen lambda returns -/\n"
+               f"def vectorSortFlagT (isNone rev naLast : Bool) : Bool :=\n"
+               f"  if {bx(sel[0].test, venv)} then {lam(sel[0].body[0])} else {lam(sel[0].orelse[0])}")
+    return out
+
+
+def generate_sort(src_dir):
+    """ninth generated file: the None flags of the sort keys"""
+    parts, errors = [], []
+    try:
+        parts += translate_sort_flags(open(os.path.join(src_dir, "vector.py")).read(), open(os.path.join(src_dir, "table.py")).read())
+    except Exception as ex:
+        errors.append(("sort_flags", f"{type(ex).__name__}: {ex}"))
+        parts.append(f"-- sort_flags: not translated ({type(ex).__name__})")
+    text = ("/- GENERATED by harness/py2lean.py from /repo's working tree — do not edit.\n"
+            "   The None flag of the sort keys of Table.sort_by / Vector.sort_by; theorems in Serif/Tie/Sort.lean. -/\n"
+            "import Serif.Prelude\n\nset_option linter.unusedVariables false\n\nnamespace Serif.Gen.TS\nopen Serif\n\n"
+            + "\n\n".join(parts) + "\n\nend Serif.Gen.TS\n")
+    return text, errors
